@@ -25,6 +25,7 @@
 #include <semaphore.h>
 #include <sys/time.h>
 #include <sys/wait.h>
+#include <sys/syscall.h>
 
 /* unit style: the queue's ring indices are part of the canonical trace */
 #include "lib/async/async_queue.c"
@@ -159,23 +160,155 @@ static async_runtime_t *the_rt (void)
   return rt;
 }
 
-static void cmd_wait (int max)
+static void emit_wait (int max, int n, io_event_t * ev)
 {
-  io_event_t ev[256];
-  struct timeval tv = { 0, 0 };
   char line[8192];
-  int n, len;
+  int len = snprintf (line, sizeof line, "wait %d %d", max, n);
+  for (int i = 0; i < n && len < (int) sizeof line - 64; i++)
+    len += snprintf (line + len, sizeof line - len, " %lu:%lu", (unsigned long) ev[i].completion_key,
+                     (unsigned long) ev[i].bytes_transferred);
+  emit ("%s", line);
+}
+
+/* A wait split into its atomic steps.  read() on the eventfd is interposed (below): the thread inside
+ * async_runtime_wait parks at gate 1 = entry of its first doorbell read and at gate 2 = after the read that
+ * found the doorbell empty (EAGAIN).  Both gates are outside ring_lock, so the controlling thread can post /
+ * wake up while the waiting thread is parked - the interleavings a whole-call schedule can never produce.
+ * Handshake with semaphores only: nothing here depends on time.
+ *   wbegin <max>   start the wait; it runs until gate 1 (or returns: `wait ...` is printed)
+ *   wread          gate 1 -> gate 2 (the doorbell is read)
+ *   wend           gate 2 -> the call returns: `wait <max> <n> ...`                                       */
+static struct
+{
+  pthread_t th;
+  int active, max, n;
+  volatile int gate, done, past1;
+  sem_t arrived, go;
+  io_event_t ev[256];
+} cw;
+static __thread int gated_thread;	/* this thread's eventfd reads are gated */
+static __thread uint64_t *read_jitter;	/* mt runs: random delay in front of the doorbell read of this thread */
+static int gate_fd = -1;
+
+static void park (int g)
+{
+  cw.gate = g;
+  sem_post (&cw.arrived);
+  sem_wait (&cw.go);
+}
+
+ssize_t read (int fd, void *buf, size_t n)
+{
+  if (fd == gate_fd && gate_fd >= 0)
+    {
+      if (gated_thread)
+        {
+          ssize_t r;
+          if (!cw.past1)
+            {
+              cw.past1 = 1;
+              park (1);
+            }
+          r = syscall (SYS_read, fd, buf, n);
+          if (r != (ssize_t) n)
+            {
+              int e = errno;
+              park (2);
+              errno = e;
+            }
+          return r;
+        }
+      if (read_jitter)
+        {
+          rnd_yield (read_jitter);
+          if (*read_jitter % 3 == 0)
+            usleep (*read_jitter % 400);
+        }
+    }
+  return syscall (SYS_read, fd, buf, n);
+}
+
+static void *cw_thread (void *arg)
+{
+  struct timeval tv = { 0, 0 };
+  (void) arg;
+  gated_thread = 1;
+  cw.n = async_runtime_wait (rt, cw.ev, cw.max, &tv);
+  gated_thread = 0;
+  __atomic_store_n (&cw.done, 1, __ATOMIC_RELEASE);
+  sem_post (&cw.arrived);
+  return 0;
+}
+
+/* wait until the waiting thread has parked again or returned; 1 = it returned (result printed) */
+static int cw_sync (void)
+{
+  struct timespec ts;
+  clock_gettime (CLOCK_REALTIME, &ts);
+  ts.tv_sec += LIVE_MS / 1000;
+  while (sem_timedwait (&cw.arrived, &ts) < 0 && errno == EINTR)
+    ;
+  if (__atomic_load_n (&cw.done, __ATOMIC_ACQUIRE))
+    {
+      pthread_join (cw.th, 0);
+      cw.active = 0;
+      emit_wait (cw.max, cw.n, cw.ev);
+      return 1;
+    }
+  return 0;
+}
+
+static void cmd_wbegin (int max)
+{
   if (max <= 0 || max > 256)
     {
       emit ("skip wait-max-0");
       return;
     }
+  if (cw.active)
+    {
+      emit ("skip wait-in-progress");
+      return;
+    }
+  the_rt ();
+  gate_fd = async_runtime_get_event_loop_handle (rt);
+  sem_init (&cw.arrived, 0, 0);
+  sem_init (&cw.go, 0, 0);
+  cw.active = 1, cw.max = max, cw.gate = 0, cw.done = 0, cw.past1 = 0;
+  pthread_create (&cw.th, 0, cw_thread, 0);
+  if (!cw_sync ())
+    emit ("wbegin %d parked", max);
+}
+
+static void cmd_wgo (int gate, const char *name)
+{
+  if (!cw.active || cw.gate != gate)
+    {
+      emit ("skip no-wait-parked");
+      return;
+    }
+  sem_post (&cw.go);
+  if (!cw_sync ())
+    emit ("%s", name);
+}
+
+static void cmd_wait (int max)
+{
+  io_event_t ev[256];
+  struct timeval tv = { 0, 0 };
+  int n;
+  if (max <= 0 || max > 256)
+    {
+      emit ("skip wait-max-0");
+      return;
+    }
+  if (cw.active)
+    {
+      emit ("skip wait-in-progress");	/* async_runtime_wait must not be called by two threads */
+      return;
+    }
   n = async_runtime_wait (the_rt (), ev, max, &tv);
-  len = snprintf (line, sizeof line, "wait %d %d", max, n);
-  for (int i = 0; i < n && len < (int) sizeof line - 64; i++)
-    len += snprintf (line + len, sizeof line - len, " %lu:%lu", (unsigned long) ev[i].completion_key,
-                     (unsigned long) ev[i].bytes_transferred);
-  emit ("%s", line);
+  emit_wait (max, n, ev);
 }
 
 /* ---- queue ---------------------------------------------------------------------------------------------- */
@@ -209,9 +342,32 @@ static int do_enqueue (unsigned p, unsigned v, unsigned size)
   return rc;
 }
 
+/* is the thread sleeping in the kernel (state S in /proc/self/task/<tid>/stat)?  -1 = cannot tell */
+static int thread_sleeping (int tid)
+{
+  char path[64], buf[512];
+  FILE *f;
+  char *p;
+  snprintf (path, sizeof path, "/proc/self/task/%d/stat", tid);
+  f = fopen (path, "r");
+  if (!f)
+    return -1;
+  if (!fgets (buf, sizeof buf, f))
+    {
+      fclose (f);
+      return -1;
+    }
+  fclose (f);
+  p = strrchr (buf, ')');
+  return p && p[1] == ' ' ? p[2] == 'S' : -1;
+}
+
+static volatile int bw_tid;
+
 static void *bw_thread (void *arg)
 {
   (void) arg;
+  __atomic_store_n (&bw_tid, (int) syscall (SYS_gettid), __ATOMIC_RELEASE);
   bw.rc = do_enqueue (bw.p, bw.v, bw.size);
   __atomic_store_n (&bw.done, 1, __ATOMIC_RELEASE);
   return 0;
@@ -234,8 +390,27 @@ static void cmd_enq (unsigned p, unsigned v, unsigned size)
     {
       /* the call may sleep on not_full: make it from a helper thread and see whether it comes back */
       bw.p = p, bw.v = v, bw.size = size, bw.done = 0;
+      bw_tid = 0;
       pthread_create (&bw.th, 0, bw_thread, 0);
-      if (wait_flag (&bw.done, 100))
+      /* wait for a CONDITION, not for a time: the call has returned, or its thread sleeps in the kernel (on
+       * not_full: in this single-controller harness nothing else can make it sleep); seen twice in a row */
+      {
+        long end = now_ms () + LIVE_MS;
+        int asleep = 0;
+        while (!__atomic_load_n (&bw.done, __ATOMIC_ACQUIRE) && now_ms () < end && asleep < 5)
+          {
+            int tid = __atomic_load_n (&bw_tid, __ATOMIC_ACQUIRE);
+            int st = tid ? thread_sleeping (tid) : 0;
+            if (st < 0)
+              {
+                msleep (100);	/* no /proc: fall back to a grace period */
+                break;
+              }
+            asleep = st ? asleep + 1 : 0;
+            usleep (300);
+          }
+      }
+      if (__atomic_load_n (&bw.done, __ATOMIC_ACQUIRE))
         {
           pthread_join (bw.th, 0);
           emit ("enq %u %u %u %s", p, v, size, bw.rc ? "ok" : "fail");
@@ -680,23 +855,41 @@ typedef struct
   uint64_t seed;
   int refused;
   volatile int done;
+  volatile long gen;		/* quiet points reached */
 } prod_t;
 
 #define MT_KEY0 0x1000
 
+static volatile long mt_posted;	/* posts that have RETURNED 0 */
+
+static volatile long mt_ack;	/* quiet points acknowledged by the consumer */
+
+/* Producers post in bursts; after each burst they stop at a QUIET POINT until the consumer has received everything
+ * posted so far.  At a quiet point nobody will ring the doorbell again, so a completion whose wake-up was erased
+ * stays undelivered and the consumer's wait times out: every burst end is a chance to observe a lost wake-up
+ * (without quiet points the next post of anybody hides it). */
 static void *post_producer (void *arg)
 {
   prod_t *p = (prod_t *) arg;
+  int burst = 1 + (int) (rng_next (&p->seed) % 12);
   for (int i = 0; i < p->nper; i++)
     {
       rnd_yield (&p->seed);
+      if (rng_next (&p->seed) % 5 == 0)
+        async_runtime_wakeup (rt);
       while (async_runtime_post_completion (rt, MT_KEY0 + p->id, (uintptr_t) i) != 0)
         {
           p->refused++;
           sched_yield ();
         }
-      if (rng_next (&p->seed) % 5 == 0)
-        async_runtime_wakeup (rt);
+      __atomic_fetch_add (&mt_posted, 1, __ATOMIC_ACQ_REL);
+      if (--burst == 0)
+        {
+          long g = __atomic_add_fetch (&p->gen, 1, __ATOMIC_ACQ_REL);
+          while (__atomic_load_n (&mt_ack, __ATOMIC_ACQUIRE) < g)
+            usleep (100);		/* no busy spinning: the consumer needs the CPU on a loaded machine */
+          burst = 1 + (int) (rng_next (&p->seed) % 12);
+        }
     }
   __atomic_store_n (&p->done, 1, __ATOMIC_RELEASE);
   return 0;
@@ -709,7 +902,7 @@ static void mt_post (int nprod, int nper, int maxev, uint64_t seed)
   prod_t pr[16];
   int next[16] = { 0 };
   io_event_t ev[64];
-  long total = (long) nprod * nper, got = 0, dup = 0, lost = 0, garbled = 0, extra = 0;
+  long total = (long) nprod * nper, got = 0, dup = 0, lost = 0, garbled = 0, extra = 0, slept_on = 0;
   long deadline;
   uint64_t cs = seed ^ 0xC0FFEE;
   if (nprod < 1 || nprod > 16 || maxev < 1 || maxev > 64)
@@ -718,13 +911,17 @@ static void mt_post (int nprod, int nper, int maxev, uint64_t seed)
       return;
     }
   the_rt ();
+  gate_fd = async_runtime_get_event_loop_handle (rt);
+  read_jitter = &cs;		/* widen the window around this thread's doorbell read */
+  __atomic_store_n (&mt_posted, 0, __ATOMIC_RELEASE);
+  __atomic_store_n (&mt_ack, 0, __ATOMIC_RELEASE);
   for (int i = 0; i < nprod; i++)
     {
-      pr[i].id = i, pr[i].nper = nper, pr[i].seed = seed * 131 + i, pr[i].refused = 0, pr[i].done = 0;
+      pr[i].id = i, pr[i].nper = nper, pr[i].seed = seed * 131 + i, pr[i].refused = 0, pr[i].done = 0, pr[i].gen = 0;
       pthread_create (&th[i], 0, post_producer, &pr[i]);
     }
   deadline = now_ms () + 2 * LIVE_MS;	/* liveness only: producers stuck */
-  int empty_after_done = 0;
+  int empty_after_done = 0, stuck = 0;
   while (got + lost < total && now_ms () < deadline)
     {
       struct timeval tv = { 0, 20000 };
@@ -734,9 +931,31 @@ static void mt_post (int nprod, int nper, int maxev, uint64_t seed)
       for (int i = 0; i < nprod; i++)
         if (!__atomic_load_n (&pr[i].done, __ATOMIC_ACQUIRE))
           all_done = 0;
+      /* posts that had returned before this wait was called: the wait must not time out without delivering
+       * them (lost wake-up) - a statement about the order of events, not about time */
+      long before = __atomic_load_n (&mt_posted, __ATOMIC_ACQUIRE);
       int n = async_runtime_wait (rt, ev, maxev, &tv);
+      if (n <= 0 && before > got + dup + garbled)
+        {
+          slept_on++;
+          async_runtime_wakeup (rt);	/* ring for the erased wake-up so that the run can finish (verdict is already bad) */
+        }
       if (n <= 0 && all_done && ++empty_after_done >= 3)
         break;
+      /* everybody waits at a quiet point (or is done), waits keep coming back empty although we rang ourselves:
+       * what is missing will never arrive (lost / merged completions) */
+      if (n <= 0)
+        {
+          int parked = 1;
+          long ack = __atomic_load_n (&mt_ack, __ATOMIC_ACQUIRE);
+          for (int i = 0; i < nprod; i++)
+            if (!__atomic_load_n (&pr[i].done, __ATOMIC_ACQUIRE) && __atomic_load_n (&pr[i].gen, __ATOMIC_ACQUIRE) <= ack)
+              parked = 0;
+          if (parked && ++stuck >= 3)
+            break;
+        }
+      else
+        stuck = 0;
       for (int i = 0; i < n; i++)
         {
           long k = (long) ev[i].completion_key - MT_KEY0;
@@ -752,9 +971,24 @@ static void mt_post (int nprod, int nper, int maxev, uint64_t seed)
               got++;
             }
         }
+      /* quiet point: every producer that still runs has stopped after its burst g, and everything posted has arrived */
+      {
+        long g = -1;
+        for (int i = 0; i < nprod; i++)
+          if (!__atomic_load_n (&pr[i].done, __ATOMIC_ACQUIRE))
+            {
+              long gi = __atomic_load_n (&pr[i].gen, __ATOMIC_ACQUIRE);
+              if (g < 0 || gi < g)
+                g = gi;
+            }
+        if (g > __atomic_load_n (&mt_ack, __ATOMIC_ACQUIRE)
+            && __atomic_load_n (&mt_posted, __ATOMIC_ACQUIRE) == got + dup + garbled)
+          __atomic_store_n (&mt_ack, g, __ATOMIC_RELEASE);
+      }
       if (rng_next (&cs) % 4 == 0)
         usleep (rng_next (&cs) % 300);	/* let posts pile up between two waits */
     }
+  __atomic_store_n (&mt_ack, 1L << 40, __ATOMIC_RELEASE);	/* release producers still parked at a quiet point */
   for (int i = 0; i < nprod; i++)
     pthread_join (th[i], 0);
   for (int r = 0; r < 3; r++)
@@ -763,11 +997,12 @@ static void mt_post (int nprod, int nper, int maxev, uint64_t seed)
       int n = async_runtime_wait (rt, ev, maxev, &tv);
       extra += n > 0 ? n : 0;
     }
-  if (got == total && !dup && !lost && !garbled && !extra)
+  read_jitter = 0;
+  if (got == total && !dup && !lost && !garbled && !extra && !slept_on)
     emit ("mt post ok");
   else
-    emit ("mt post bad delivered=%ld/%ld lost-or-overtaken=%ld duplicated=%ld garbled=%ld after-the-end=%ld", got, total, lost, dup,
-          garbled, extra);
+    emit ("mt post bad delivered=%ld/%ld lost-or-overtaken=%ld duplicated=%ld garbled=%ld after-the-end=%ld "
+          "waits-that-slept-on-a-posted-completion=%ld", got, total, lost, dup, garbled, extra, slept_on > 0 ? 1L : 0L);
 }
 
 typedef struct
@@ -1032,6 +1267,12 @@ static void run_line (char *line)
     emit ("wakeup %d", async_runtime_wakeup (the_rt ()));
   else if (!strcmp (tok[0], "wait") && n == 2)
     cmd_wait (atoi (tok[1]));
+  else if (!strcmp (tok[0], "wbegin") && n == 2)
+    cmd_wbegin (atoi (tok[1]));
+  else if (!strcmp (tok[0], "wread") && n == 1)
+    cmd_wgo (1, "wread");
+  else if (!strcmp (tok[0], "wend") && n == 1)
+    cmd_wgo (2, "wend-did-not-return");
   else if (!strcmp (tok[0], "qnew") && n == 4)
     {
       if (q)
